@@ -722,6 +722,15 @@ fn headers<C: Suite>() -> Outcome {
             x["header"]["ciphersuite"] = Value::from(*other);
             variants.push((format!("ciphersuite={other}"), x));
         }
+        // a different string with the SAME CRC-32 as the real ID (the binary form compares the CRC, the
+        // JSON form must compare the string)
+        if let Some(coll) = crc_collision(C::ID) {
+            let mut x = val.clone();
+            x["header"]["ciphersuite"] = Value::from(coll.clone());
+            variants.push((format!("ciphersuite=crc32-collision"), x));
+            o.count("crc_collisions_built", 1);
+            let _ = coll;
+        }
         {
             let mut x = val.clone();
             x["unknown_field"] = Value::from(1);
@@ -857,4 +866,55 @@ fn differential<C: Suite>(kind: &str, full: bool) -> Outcome {
     }
     o.class("differential");
     o
+}
+
+
+/// A string != `id` with the same CRC-32 (IEEE): `id` + "-" + six characters found by a
+/// meet-in-the-middle search over [A-Za-z0-9_-]^3 x [A-Za-z0-9_-]^3.
+pub fn crc_collision(id: &str) -> Option<String> {
+    use std::collections::HashMap;
+    const ALPHA: &[u8] = b"ABCDEFGHIJKLMNOPQRSTUVWXYZabcdefghijklmnopqrstuvwxyz0123456789_-";
+    fn step(mut crc: u32, b: u8) -> u32 {
+        crc ^= b as u32;
+        for _ in 0..8 {
+            crc = if crc & 1 != 0 { (crc >> 1) ^ 0xedb8_8320 } else { crc >> 1 };
+        }
+        crc
+    }
+    // reverse one byte: given the state AFTER processing byte b, the state before
+    fn unstep(mut crc: u32, b: u8) -> u32 {
+        for _ in 0..8 {
+            crc = if crc & 0x8000_0000 != 0 { ((crc ^ 0xedb8_8320) << 1) | 1 } else { crc << 1 };
+        }
+        crc ^ b as u32
+    }
+    let target_final = crc32(id.as_bytes());
+    let target_state = !target_final; // state before the final inversion
+    let mut st = 0xffff_ffffu32;
+    for b in id.bytes().chain(std::iter::once(b'-')) {
+        st = step(st, b);
+    }
+    let mut fwd: HashMap<u32, [u8; 3]> = HashMap::new();
+    for a in ALPHA {
+        for b in ALPHA {
+            for c in ALPHA {
+                let s3 = step(step(step(st, *a), *b), *c);
+                fwd.entry(s3).or_insert([*a, *b, *c]);
+            }
+        }
+    }
+    for d in ALPHA {
+        for e in ALPHA {
+            for f in ALPHA {
+                let before = unstep(unstep(unstep(target_state, *f), *e), *d);
+                if let Some(h) = fwd.get(&before) {
+                    let cand = format!("{id}-{}{}", String::from_utf8_lossy(h), String::from_utf8_lossy(&[*d, *e, *f]));
+                    if crc32(cand.as_bytes()) == target_final && cand != id {
+                        return Some(cand);
+                    }
+                }
+            }
+        }
+    }
+    None
 }
